@@ -20,9 +20,9 @@ func init() {
 // ---- templates -----------------------------------------------------------------------------
 
 func newTr(ld *loader, name string, cfg *config) *tr {
-	return &tr{ld: ld, p: &pipeline{name: name}, cfg: cfg, cellID: map[*cell]int{},
+	return &tr{ld: ld, p: &pipeline{name: name, inTemplate: true}, cfg: cfg, cellID: map[*cell]int{},
 		carried: map[int][]AV{}, sent: map[int][]AV{}, mapName: map[int]string{},
-		dataMaps: map[int]bool{}, dataMapsNew: map[int]bool{},
+		dataMaps: map[int]bool{}, dataMapsNew: map[int]bool{}, ranged: map[int]bool{}, rangedNew: map[int]bool{},
 		chanSub: map[string]int{}, goSite: map[*ast.GoStmt]string{}, effMemo: map[*ast.BlockStmt]bool{}, nextRoot: -1}
 }
 
@@ -161,11 +161,13 @@ type builder func(t *tr) error
 func build(ld *loader, name string, cfg *config, b builder) (*pipeline, error) {
 	carried := map[string][]AV{} // by channel name
 	dataMaps := map[int]bool{}
+	ranged := map[int]bool{}
 	var last *tr
 	for pass := 0; pass < 6; pass++ {
 		t := newTr(ld, name, cfg)
 		t.carriedByName = carried
 		t.dataMaps = dataMaps
+		t.ranged = ranged
 		if err := b(t); err != nil {
 			return nil, err
 		}
@@ -208,6 +210,15 @@ func build(ld *loader, name string, cfg *config, b builder) (*pipeline, error) {
 			}
 		}
 		dataMaps = nextData
+		for m := range t.rangedNew {
+			if !ranged[m] {
+				same = false
+			}
+		}
+		if len(t.rangedNew) != len(ranged) {
+			same = false
+		}
+		ranged = t.rangedNew
 		if same {
 			break
 		}
@@ -418,7 +429,13 @@ func buildHelper(ld *loader, name, dir, fn string, nIn int, mkArgs func(ctx AV, 
 		t.g = main
 		t.cur = &cont{atEntry: true, ps: newPS()}
 		t.frames = nil
-		rets := t.inline(f, mkArgs(avCtx{0}, ins), nil)
+		var args []AV
+		if mkArgs == nil {
+			args = argsByType(f, avCtx{0}, ins)
+		} else {
+			args = mkArgs(avCtx{0}, ins)
+		}
+		rets := t.inline(f, args, nil)
 		if len(rets) != 1 {
 			return fmt.Errorf("%s.%s returns along %d paths", dir, fn, len(rets))
 		}
@@ -463,6 +480,38 @@ func buildHelper(ld *loader, name, dir, fn string, nIn int, mkArgs func(ctx AV, 
 	})
 }
 
+// argsByType binds the parameters of a helper by their declared types: context.Context gets the
+// pipeline context, a (variadic) channel parameter gets the inputs, everything else is data.
+func argsByType(f *avFunc, ctx AV, ins []AV) []AV {
+	var args []AV
+	for _, fld := range f.typ.Params.List {
+		n := len(fld.Names)
+		if n == 0 {
+			n = 1
+		}
+		for i := 0; i < n; i++ {
+			switch ty := fld.Type.(type) {
+			case *ast.SelectorExpr:
+				if ty.Sel.Name == "Context" {
+					args = append(args, ctx)
+					continue
+				}
+			case *ast.Ellipsis:
+				args = append(args, ins...)
+				continue
+			case *ast.ChanType:
+				if len(ins) > 0 {
+					args = append(args, ins[0])
+					ins = ins[1:]
+					continue
+				}
+			}
+			args = append(args, avUnknown{})
+		}
+	}
+	return args
+}
+
 type spec struct {
 	name string
 	mk   func(ld *loader) (*pipeline, error)
@@ -487,8 +536,7 @@ func specs() []spec {
 		h("helper.onchain.first", "onchain", "merge", 2, ctxIns, "first"),
 		h("helper.onchain.firstEvent", "onchain", "merge", 2, ctxIns, "firstEvent"),
 		h("helper.p2p.merge", "p2p", "merge", 2, ctxIns, ""),
-		h("helper.dkg.mergeErrors", "share/dkg/pedersen", "mergeErrors", 2,
-			func(ctx AV, ins []AV) []AV { return append([]AV{avOpaque{"logger"}, avUnknown{}}, ins...) }, ""),
+		h("helper.dkg.mergeErrors", "share/dkg/pedersen", "mergeErrors", 2, nil, ""),
 		h("helper.dkg.fanOut", "share/dkg/pedersen", "fanOut", 1,
 			func(ctx AV, ins []AV) []AV { return []AV{ctx, ins[0], avInt{2}} }, ""),
 	}
